@@ -410,11 +410,11 @@ theorem adapt_weight_pointwise {c n nwin : ℕ} (hc : 0 < c) (SkF SkC : List (Li
 /-
   Full informal claim for the adaptive weighting (NOT provable exactly, and not exactly true of the code):
   "the 'adapt' multitaper estimate at a common frequency does not depend on NFFT".
-  The weights are the result of an iteration whose stopping rule is GLOBAL: the loop runs while
-  `Σ_f |S[f] - S1[f]| / NFFT > tol` with `tol = 0.0005·σ²/NFFT` (at most 100 passes); the mean runs over all
+  The weights are the result of an iteration whose stopping rule is GLOBAL: after the first pass (always made) the
+  loop runs while `Σ_f |S[f] - S1[f]| / NFFT > tol` with `tol = 0.0005·σ²/NFFT` (at most 100 passes); the mean runs over all
   NFFT frequencies and `tol` itself contains NFFT, so the number of passes may differ between the grids and
   the property then holds only to the iteration tolerance.
-  Proved below: the loop on either grid is some number of passes (`kF`, `kC ≤ 100`) of the pointwise step
+  Proved below: the loop on either grid is some number of passes (`1 ≤ kF, kC ≤ 100`) of the pointwise step
   from start states that agree at the common frequencies, and WHENEVER the two numbers of passes coincide
   the weights and the class mean agree exactly at the common frequencies.  Missing: a contraction bound on
   the pass map that would turn `kF ≠ kC` into "agreement within the tolerance" (needs `ℝ`, analysis).
@@ -423,7 +423,7 @@ theorem adapt_weight_pointwise {c n nwin : ℕ} (hc : 0 < c) (SkF SkC : List (Li
 theorem mt_adapt_grid_partial [ReOrd K] {Ω ω : K} {c n : ℕ} (hn : 0 < n) (hc : 0 < c)
     (hΩ : Ω ^ (c * n) = 1) (hΩω : Ω ^ c = ω) (x lams : List K) (tapers : List (List K)) (tolc : K)
     (hx : x.length ≤ n) :
-    ∃ kF kC : ℕ, kF ≤ 100 ∧ kC ≤ 100 ∧
+    ∃ kF kC : ℕ, 1 ≤ kF ∧ kF ≤ 100 ∧ 1 ≤ kC ∧ kC ≤ 100 ∧
       pmtmWeights .adapt x lams (mtSkA (twiddles Ω (c * n)) x tapers (c * n)) (c * n) tolc
         = ((adaptStep (mtSkA (twiddles Ω (c * n)) x tapers (c * n)) lams (adaptSig2 x) (c * n)
               lams.length)^[kF]
@@ -446,18 +446,22 @@ theorem mt_adapt_grid_partial [ReOrd K] {Ω ω : K} {c n : ℕ} (hn : 0 < n) (hc
   have hSk : ∀ t j, j < n → nth (SkF.getD t []) (c * j) = nth (SkC.getD t []) j :=
     fun t j hj => mt_table_grid hn hc hΩ hΩω x tapers hx t j hj
   obtain ⟨kF, hkF, heF, _, _⟩ := adaptLoop_iterate SkF lams (adaptSig2 x)
-    (tolc * adaptSig2 x / ((c * n : ℕ) : K)) (c * n) lams.length 100 (adaptInit lams SkF (c * n))
+    (tolc * adaptSig2 x / ((c * n : ℕ) : K)) (c * n) lams.length 99
+    (adaptStep SkF lams (adaptSig2 x) (c * n) lams.length (adaptInit lams SkF (c * n)))
   obtain ⟨kC, hkC, heC, _, _⟩ := adaptLoop_iterate SkC lams (adaptSig2 x)
-    (tolc * adaptSig2 x / (n : K)) n lams.length 100 (adaptInit lams SkC n)
+    (tolc * adaptSig2 x / (n : K)) n lams.length 99
+    (adaptStep SkC lams (adaptSig2 x) n lams.length (adaptInit lams SkC n))
   have hwF := pmtmWeights_adapt x lams SkF (c * n) tolc
   have hwC := pmtmWeights_adapt x lams SkC n tolc
-  rw [heF] at hwF
-  rw [heC] at hwC
-  refine ⟨kF, kC, hkF, hkC, hwF, hwC, ?_⟩
+  rw [heF, ← Function.iterate_succ_apply] at hwF
+  rw [heC, ← Function.iterate_succ_apply] at hwC
+  refine ⟨kF + 1, kC + 1, Nat.succ_le_succ (Nat.zero_le _), Nat.succ_le_succ hkF,
+    Nat.succ_le_succ (Nat.zero_le _), Nat.succ_le_succ hkC, hwF, hwC, ?_⟩
   intro hk j hj
+  have hk : kF = kC := Nat.succ_injective hk
   subst hk
   have hA := adaptAgree_iterate hc SkF SkC lams (adaptSig2 x) hSk _ _
-    (adaptAgree_init hc SkF SkC lams hSk) kF
+    (adaptAgree_init hc SkF SkC lams hSk) (kF + 1)
   have hW : ∀ t, t < lams.length →
       nth ((pmtmWeights .adapt x lams SkF (c * n) tolc).getD (c * j) []) t
         = nth ((pmtmWeights .adapt x lams SkC n tolc).getD j []) t := by
